@@ -51,7 +51,19 @@ Definition fetch_flow_collection_start (seq : bool) : M unit :=
   skip_ws_to_eol ops F SkipYes ;;;
   m <- mark ;; push_tok (spn start m, if seq then TFlowSequenceStart else TFlowMappingStart).
 
+(* a flow collection is closed by its own kind of bracket ('}' on an open '[': site 48, ']' on an open '{': site 47) *)
+Definition check_flow_closer (seq : bool) : M unit :=
+  s <- get ;;
+  match sc_ifms s with
+  | st :: _ =>
+      let in_mapping := (match st with ImMapping => true | _ => false end) in
+      if Bool.eqb in_mapping (negb seq) then ret tt
+      else fail (if in_mapping then 47 else 48) (sc_mark s)
+  | [] => ret tt
+  end.
+
 Definition fetch_flow_collection_end (seq : bool) : M unit :=
+  check_flow_closer seq ;;;
   remove_simple_key ;;;
   decrease_flow_level ;;;
   disallow_simple_key ;;;
